@@ -158,7 +158,8 @@ class ContractDB:
         spec = dict(params=params, defaults=defaults, types=c.get('types', {}), requires=c.get('requires', ()),
                     ensures=c.get('ensures', ()), modifies=c.get('modifies', ()), returns=c.get('returns'),
                     raises=c.get('raises'), allocates=c.get('allocates'), ghost=list(c.get('ghost', {})),
-                    defs=c.get('defs', {}), post_locals=[(n, c.get('locals', {}).get(n)) for n in c.get('post_locals', ())])
+                    defs=c.get('defs', {}), post_locals=[(n, c.get('locals', {}).get(n)) for n in c.get('post_locals', ())],
+                    verified_as=key)
         if 'staticmethod' in deco:
             spec['static'] = True
         elif 'classmethod' in deco:
